@@ -323,8 +323,25 @@ def _truncating_divisions(root: ast.AST) -> list[ast.Call]:
     return out
 
 
+def _integer_only_ceilings(root: ast.AST) -> list[ast.BinOp]:
+    """`(y + x - 1) // x` (any association / order of the sum): a ceiling for INTEGERS only - for a fractional y or x the
+    result can be one step too small (y=0, x=0.5 -> -1.0 steps; y=4.5, x=2 -> 2 steps = 4.0 < 4.5)."""
+    def terms(e: ast.AST, sign: int = 1) -> list[tuple[int, str]]:
+        if isinstance(e, ast.BinOp) and isinstance(e.op, (ast.Add, ast.Sub)):
+            return terms(e.left, sign) + terms(e.right, sign if isinstance(e.op, ast.Add) else -sign)
+        return [(sign, unparse(e, 200))]
+    out = []
+    for b in ast.walk(root):
+        if isinstance(b, ast.BinOp) and isinstance(b.op, ast.FloorDiv):
+            ts = terms(b.left)
+            d = unparse(b.right, 200)
+            if len(ts) >= 3 and (1, d) in ts and (-1, "1") in ts:
+                out.append(b)
+    return out
+
+
 def r6_floor_arithmetic(chk: Check) -> None:
-    chk.rule("C03.R6", "SIBLINGS-AGREE(rounding in boundary arithmetic): multiples of `multipleOf` next to a bound are computed with floor arithmetic (`//`, `%`, `divmod`) as the existing helpers do; a quotient truncated toward zero (`int(a / b)`) lands beyond a NEGATIVE bound and the value is still labelled positive", floor=2)
+    chk.rule("C03.R6", "SIBLINGS-AGREE(rounding in boundary arithmetic): multiples of `multipleOf` next to a bound are computed with floor arithmetic (`//`, `%`, `divmod`) as the existing helpers do; a quotient truncated toward zero (`int(a / b)`) lands beyond a NEGATIVE bound and the value is still labelled positive; the integer-only ceiling `(y + x - 1) // x` lands below a fractional bound (`type: number`)", floor=3)
     P = chk.project
     mod = P.module(COV)
     n = 0
@@ -337,11 +354,18 @@ def r6_floor_arithmetic(chk: Check) -> None:
         for c in bad:
             n += 1
             chk.violation("C03.R6", f, f"{unparse(c, 50)}", "the quotient is truncated toward zero: for a negative bound that is not itself a multiple the computed 'largest multiple <= maximum' is GREATER than the maximum (e.g. maximum=-5, multipleOf=3 gives -3), and that value is produced as a positive 'Maximum value' case", f.loc(c))
+        ceil_ = _integer_only_ceilings(f.node)
+        for b in ceil_:
+            n += 1
+            chk.violation("C03.R6", f, f"{unparse(b, 50)}", "the integer ceiling idiom `(y + x - 1) // x` is applied to schema numbers: `minimum` / `multipleOf` of a `type: number` schema are floats, for which it is not a ceiling - {minimum: 0, multipleOf: 0.5} gives -0.5 and {minimum: 4.5, multipleOf: 2} gives 4.0, both BELOW the minimum and produced as the positive 'Minimum value' case", f.loc(b))
+        bad = bad + ceil_  # type: ignore[operator]
         if floors and not bad:
             n += 1
             chk.ok("C03.R6", f, "floor arithmetic (// % divmod) for multiples", f"{len(floors)} site(s)", f.loc())
     fixture = ast.parse("def closest_multiple_less_than(y, x):\n    return x * int(y / x)\n")
     chk.decide(len(_truncating_divisions(fixture)) == 1, "C03.R6", "<fixture>", "positive fixture: int(y / x) is recognised", "the matcher no longer recognises the defect shape (vacuous pass)", "<fixture>")
+    fixture2 = ast.parse("def closest_multiple_greater_than(y, x):\n    return x * ((y + x - 1) // x)\n\ndef fine(y, x):\n    return -(-y // x) * x + (y - 1) // x\n")
+    chk.decide(len(_integer_only_ceilings(fixture2)) == 1, "C03.R6", "<fixture>", "positive fixture: (y + x - 1) // x is recognised, -(-y // x) is not", "the matcher no longer separates the integer-only ceiling from the float-safe one (vacuous pass / false alarm)", "<fixture>")
     if n < 1:
         chk.undecided("C03.R6", "<discovery>", f"sites={n}", "no multiple-of arithmetic found in coverage.py")
 
